@@ -25,3 +25,21 @@ package oracle
 // looked up through this index: without it an imported feed never receives another value)
 //@   ensures feeds_indexed: forall j:Int :: 0 <= j && j < len(data.Entries) ==> has(byCtx, unhex(data.Entries[j].Feed.RequestContextID))
 //@ end
+
+// Genesis export (C12, C17): every feed whose request context the service module knows is exported - with its record as
+// stored, the state its context is in, and as many recorded values as are stored for it.
+//@ func ExportGenesis(ctx, k)
+//@   property C12, C17
+//@   returns gs
+// every feed is filed under its own name (SetFeed derives the key from the record)
+//@   requires forall n:Str :: has(feeds, n) ==> get(feeds, n).FeedName == n
+//@   invariant @IteratorFeeds #1 pos:    0 <= it_idx && it_idx <= it_n
+//@   invariant @IteratorFeeds #1 listed: forall j:Int :: 0 <= j && j < it_idx && svcfound(unhex(get(feeds, it_seq[j]).RequestContextID))
+//@                                         ==> (exists m:Int :: 0 <= m && m < len(entries) && entries[m].Feed == get(feeds, it_seq[j])
+//@                                               && entries[m].State == svcstate(unhex(get(feeds, it_seq[j]).RequestContextID))
+//@                                               && len(entries[m].Values) == keeper.CNT(values, it_seq[j]))
+//@   ensures every_feed: forall n:Str :: has(feeds, n) && svcfound(unhex(get(feeds, n).RequestContextID))
+//@                          ==> (exists m:Int :: 0 <= m && m < len(gs.Entries) && gs.Entries[m].Feed == get(feeds, n)
+//@                                && gs.Entries[m].State == svcstate(unhex(get(feeds, n).RequestContextID))
+//@                                && len(gs.Entries[m].Values) == keeper.CNT(values, n))
+//@ end
